@@ -229,11 +229,15 @@ def derive_context(parent, recipe):
         parent.freeze()
         return parent.extended_with(
             macros=[macrospec.MacroSpec(n, list(spec)) for n, spec in recipe[2]])
+    if kind == 'extended_s':
+        # ... with specials of its own
+        parent.freeze()
+        return parent.extended_with(specials=[macrospec.SpecialsSpec(c) for c in recipe[2]])
     raise ValueError("unknown recipe %r" % (recipe,))
 
 
 def base_kind(recipe):
-    while recipe[0] in ('filtered', 'extended'):
+    while recipe[0] in ('filtered', 'extended', 'extended_s'):
         recipe = recipe[1]
     return recipe[0]
 
